@@ -72,7 +72,8 @@ Definition checkCommandCapability (d : db) (chan : option str) (commandName : st
       end
   end.
 
-(* commandName given as a list: assert commandName[0] == plugin; '.'.join *)
+(* commandName given as a list: plugin = cb.canonicalName(); assert commandName[0] == plugin; '.'.join
+   ([plugin] is that canonical name: _callCommand passes the same string as [canon]) *)
 Definition ccc_list (d : db) (chan : option str) (plugin : str) (names : list str) : res pyv :=
   match names with
   | [] => Raise IndexError
@@ -481,6 +482,15 @@ Definition pluginCall (d : db) (p : dsp) (inner : list event) : res (list event)
        if ig then Ok [] else doPrivmsg d p inner.
 
 
+(* ---- Scheduler._makeCommandFunction.f (plugins/Scheduler/plugin.py): a command replayed later by the scheduler does not
+   pass Owner.doPrivmsg again, so the function itself drops it when the user who scheduled it is ignored NOW:
+     def _isIgnored(self, msg): return ircutils.isUserHostmask(msg.prefix) and ircdb.checkIgnored(msg.prefix, msg.channel)
+     def f(): ... if self._isIgnored(msg): return ; self.Proxy(irc, msg, tokens)
+   [i] = the inputs of checkIgnored(msg.prefix, msg.channel) at the time the event fires. *)
+Definition scheduled_fire (userhost : bool) (i : ign) (inner : list event) : res (list event) :=
+  if userhost then do ig <- checkIgnored i; if ig then Ok [] else Ok inner
+  else Ok inner.
+
 (* ---- wire ---- *)
 Definition vPyv (v : pyv) : value :=
   match v with PFalse => L [I 0%Z] | PTrue => L [I 1%Z] | PStr s => L [I 2%Z; vS s] end.
@@ -565,5 +575,8 @@ Definition run (v : value) : value :=
                           | CWrite ch n => L [I 0%Z; vS ch; vB n] | CDenied c => L [I 1%Z; vS c] | CReadOnly => L [I 2%Z]
                           | CSuccess => L [I 3%Z] | CRaiseW e => L [I 4%Z; I (exn_code e)] end)
                  (config_channel_set (gDb (nth_v 0 p)) (gB (nth_v 1 p)) (gB (nth_v 2 p)) (gB (nth_v 3 p)) (gLS (nth_v 4 p))))
+  | 9 => (* scheduled replay (userhost ign) -> 0 dropped | 1 runs | 2 raises *)
+         match scheduled_fire (gB (nth_v 0 p)) (gIgn (nth_v 1 p)) [EvBody] with
+         | Ok [] => I 0%Z | Ok _ => I 1%Z | Raise _ => I 2%Z end
   | _ => L []
   end.
